@@ -397,6 +397,18 @@ def mdsum_family():
     return out
 
 
+def has_zero_scaling(s):
+    if isinstance(s, list):
+        if s and s[0] == "scal" and s[1] == 0.0:
+            return True
+        if s and s[0] == "scalbun" and s[1] == 0.0:
+            return True
+        return any(has_zero_scaling(x) for x in s)
+    if isinstance(s, dict):
+        return any(has_zero_scaling(x) for x in s.values())
+    return False
+
+
 def has(s, kind):
     if isinstance(s, list):
         if s and s[0] == kind:
@@ -707,6 +719,10 @@ class C13(C.Check):
 
     def _direct(self, ift, o):
         c = o["case"]
+        if "build_error" in o and o["build_error"].startswith("ZeroDivisionError") and has_zero_scaling(c["spec"]):
+            # ScalingOperator(0).inverse (also after construction-time simplification) refuses at construction:
+            # the inverse of a singular operator has no meaning, the case is not admissible
+            return None
         if "build_error" in o:
             return ("construct", "constructing the operator raised " + o["build_error"])
         op, ext = o["op"], o["ext"]
